@@ -22,6 +22,8 @@ DEFAULT_ROOT = os.environ.get("VERIF_REPO", "/repo")
 LEVELS = {
     "C06": "proof", "C07": "proof", "C15": "proof",
     "C16": "model_checking",
+    "C03": "exploration", "C05": "exploration", "C08": "exploration", "C09": "exploration",
+    "C17": "exploration", "C18": "exploration", "C19": "exploration", "C20": "exploration",
 }
 
 
